@@ -674,7 +674,11 @@ func (e *enc) specCall(env *specEnv, n *SCall) (tval, error) {
 		return out, nil
 	}
 	bl := func(t string) (tval, error) { return tval{t, boolTy, "Bool"}, nil }
-	switch n.Fun {
+	fun := n.Fun
+	if _, user := e.ss.Funcs[fun]; user && fun != "old" && fun != "len" {
+		fun = "\x00user" // a spec function of the contract files shadows a builtin of the same name
+	}
+	switch fun {
 	case "old":
 		if len(n.Args) != 1 {
 			return tval{}, fmt.Errorf("old takes one argument")
@@ -825,7 +829,7 @@ func (e *enc) specCall(env *specEnv, n *SCall) (tval, error) {
 		default:
 			return tval{fmt.Sprintf("(%s %s)", e.fParent(), nv.t), nodeTy, "Int"}, nil
 		}
-	case "GetText", "GetLine", "GetColumn", "GetTokenType", "GetChildCount":
+	case "GetText", "GetLine", "GetColumn", "GetTokenType", "GetChildCount", "GetStart", "GetStop", "GetSymbol":
 		as, err := args()
 		if err != nil {
 			return tval{}, err
@@ -836,6 +840,9 @@ func (e *enc) specCall(env *specEnv, n *SCall) (tval, error) {
 		rs, rty := "Int", types.Type(intTy)
 		if n.Fun == "GetText" {
 			rs, rty = "String", strTy
+		}
+		if n.Fun == "GetStart" || n.Fun == "GetStop" || n.Fun == "GetSymbol" {
+			rty = nodeTy
 		}
 		f := e.uf(fmt.Sprintf("nm_%s_Int_0", n.Fun), []string{"Int"}, rs)
 		return tval{fmt.Sprintf("(%s %s)", f, as[0].t), rty, rs}, nil
@@ -978,6 +985,14 @@ func (e *enc) specCall(env *specEnv, n *SCall) (tval, error) {
 		}
 		// a function-valued parameter / local applied to arguments: the same deterministic function symbol the encoder uses
 		if fv, err := e.specIdent(env, n.Fun); err == nil && fv.ty != nil {
+			if pt, ok := fv.ty.Underlying().(*types.Pointer); ok {
+				if _, isSig := pt.Elem().Underlying().(*types.Signature); isSig {
+					// a captured variable holding a function: its current value
+					if dv, err := e.specDeref(env, &SIdent{n.Fun}); err == nil {
+						fv = dv
+					}
+				}
+			}
 			if sig, ok := fv.ty.Underlying().(*types.Signature); ok && sig.Results().Len() == 1 {
 				as, err := args()
 				if err != nil {
